@@ -7,6 +7,7 @@
    slist:  ares_slist_insert (node, next[], prev[], possibly realloc of head[]; label fail:),
            ares_slist_node_destroy.  The level drawn by the coin flips is an argument. *)
 From CAres.Core Require Export AllocFault.
+From CAres.Gen Require Import Consts.
 Local Open Scope nat_scope.
 
 (* ------------------------------ ares_llist ------------------------------ *)
@@ -84,6 +85,19 @@ Fixpoint z_insert (v : Z) (l : list Z) : list Z :=
 Section Slist.
   Variable f : oracle.
 
+  (* ares_slist_create: the list, then list->head; the list is freed if head cannot be had *)
+  Definition slist_create : M (option slist) :=
+    p <- malloc f ;;
+    match p with
+    | None => ret None
+    | Some lb =>
+      hd <- malloc f ;;
+      match hd with
+      | None => free (Some lb) ;;; ret None
+      | Some hb => ret (Some (mkSl lb hb (Z.to_nat ARES__SLIST_START_LEVELS) []))
+      end
+    end.
+
   (* label fail: of ares_slist_insert *)
   Definition slist_insert_fail (node next prev : option blk) : M unit :=
     match node with
@@ -125,3 +139,8 @@ Section Slist.
                           (firstn i (sl_nodes l) ++ skipn (S i) (sl_nodes l)))
     end.
 End Slist.
+
+(* ares_slist_destroy *)
+Definition slist_destroy (l : slist) : M unit :=
+  free_all (flat_map (fun n => [sn_next n; sn_prev n; sn_blk n]) (sl_nodes l)) ;;;
+  free (Some (sl_head l)) ;;; free (Some (sl_blk l)).
